@@ -1,6 +1,7 @@
 package main
 
 import (
+	"regexp"
 	"fmt"
 	"go/token"
 	"go/types"
@@ -83,8 +84,12 @@ func (P *Program) BuildFuncVC(key string) *FuncVC {
 	}
 	fv.Mode = map[int]string{modeBV: "bv", modeInt: "int"}[mode]
 	seed := map[string]types.Type{}
-	for pass := 1; pass <= 4; pass++ {
+	// an axiom about abstract functions is only brought into a function's VC when the function (its contract, its
+	// callees' contracts) speaks about one of them: found out pass by pass
+	useAxiom := map[string]bool{}
+	for pass := 1; pass <= 6; pass++ {
 		vc := NewVC(P, mode, key, seed)
+		vc.useAxiom = useAxiom
 		vc.newClass = false
 		func() {
 			defer func() {
@@ -100,7 +105,25 @@ func (P *Program) BuildFuncVC(key string) *FuncVC {
 		}()
 		fv.VC = vc
 		fv.Passes = pass
-		if fv.Err != "" || !vc.newClass {
+		moreAxioms := false
+		for tname, def := range P.TypeDef {
+			if f := strings.Fields(def); len(f) >= 4 && !useAxiom["view:"+tname] && vc.declared["|spec_"+f[2]+"|"] {
+				useAxiom["view:"+tname] = true
+				moreAxioms = true
+			}
+		}
+		for _, ax := range P.Axioms {
+			if useAxiom[ax.Label] {
+				continue
+			}
+			for _, name := range axiomAbstracts(P, ax) {
+				if vc.declared["|spec_"+name+"|"] {
+					useAxiom[ax.Label] = true
+					moreAxioms = true
+				}
+			}
+		}
+		if fv.Err != "" || (!vc.newClass && !moreAxioms) {
 			break
 		}
 		seed = vc.classes
@@ -156,8 +179,15 @@ func encodeTop(vc *VC, fn *ssa.Function, d *Decl) []inputVar {
 	}
 	// global axioms
 	for _, ax := range vc.P.Axioms {
+		if len(axiomAbstracts(vc.P, ax)) > 0 && !vc.useAxiom[ax.Label] {
+			continue
+		}
 		env := vc.newSpecEnv(fn, st, st)
-		vc.assume(env.trBool(ax.Body))
+		f, ok := env.tryBool(ax.Body)
+		if !ok {
+			continue // not expressible in this function's encoding (e.g. a map view in a bit-vector function): not used
+		}
+		vc.assume(f)
 		vc.usedAxioms[ax.Label] = true
 	}
 	// preconditions
@@ -205,6 +235,46 @@ func encodeTop(vc *VC, fn *ssa.Function, d *Decl) []inputVar {
 			fr.bindVals[n+"$called"] = sval{t: "false", typ: boolT}
 		}
 	}
+	// `hint e`: a boolean term the solver should know about when it instantiates quantifiers (evaluated at entry). It is
+	// passed to an otherwise unconstrained predicate, so it restricts nothing.
+	for _, c := range d.Get("hint") {
+		e, err := ParseExpr(c.Text)
+		if err != nil {
+			vc.specErrors = append(vc.specErrors, "hint: "+err.Error())
+			continue
+		}
+		vc.declareFun("|hint!b|", []string{"Bool"}, "Bool")
+		vc.assume("(|hint!b| " + fr.specEnvAt(st).trBool(e) + ")")
+	}
+	// `uses F:label`: a claim proved as an obligation of function F (F:lemma:label) is available here
+	for _, c := range d.Get("uses") {
+		f := strings.Fields(c.Text)
+		if len(f) != 1 || !strings.Contains(f[0], ":") {
+			vc.specErrors = append(vc.specErrors, "uses: expected F:label")
+			continue
+		}
+		i := strings.LastIndex(f[0], ":")
+		fname, lab := f[0][:i], f[0][i+1:]
+		var src *Decl
+		for k, dd := range vc.P.Funcs {
+			if k == fname || shortKey(k) == fname || strings.HasSuffix(k, "."+fname) {
+				src = dd
+			}
+		}
+		found := false
+		if src != nil {
+			for _, cc := range src.Get("claim") {
+				if cc.Label == lab && !src.Has("trusted") && len(src.Get("requires")) == 0 {
+					vc.assume(fr.specEnvAt(st).trBool(cc.E))
+					vc.note("lemma used: " + fname + ":lemma:" + lab + " (discharged as an obligation of " + fname + ")")
+					found = true
+				}
+			}
+		}
+		if !found {
+			vc.specErrors = append(vc.specErrors, "uses "+c.Text+": no such claim (or its function is trusted / has preconditions)")
+		}
+	}
 	// `claim[label] expr`: a lemma over the spec functions, to be valid under the preconditions and axioms alone
 	for _, c := range d.Get("claim") {
 		vc.oblige("lemma", c.Label, "true", fr.specEnvAt(st).trBool(c.E), "claim "+c.Text, fr.props, "")
@@ -218,6 +288,11 @@ func encodeTop(vc *VC, fn *ssa.Function, d *Decl) []inputVar {
 			continue
 		}
 		vc.oblige("at-call-missing", sanitizeLit(firstWord(txt)), "true", "false", "the function no longer makes the call this clause is about: at-call "+txt, fr.props, posOf(fn, fn.Pos()))
+	}
+	// onk clauses speak about the points where the continuation may run: a function under such a contract in which
+	// the encoder found no such point proves nothing about them
+	if len(d.Get("onk")) > 0 && fr.kpoints == 0 {
+		vc.oblige("onk-missing", "", "true", "false", "the contract has onk clauses but no point was found where the continuation may run (a callee that receives it lacks `calls k`, or it is invoked in a way the encoder does not follow)", fr.props, posOf(fn, fn.Pos()))
 	}
 	for _, cl := range d.Get("at-store") {
 		if !fr.atCallSeen[cl] {
@@ -486,4 +561,29 @@ func (fr *frame) frameObligations(items []modItem, st0, final *State, rg string,
 	for _, c := range classes {
 		vc.oblige("frame", strings.TrimPrefix(c, "H_"), rg, fs[c], "only the locations of the modifies clause change (class "+c+")", fr.props, pos)
 	}
+}
+
+var identRe = regexp.MustCompile(`[A-Za-z_][A-Za-z_0-9]*`)
+
+// axiomAbstracts: the abstract spec functions an axiom speaks about
+func axiomAbstracts(P *Program, ax *Decl) []string {
+	var out []string
+	seen := map[string]bool{}
+	for _, id := range identRe.FindAllString(ax.BodyTxt, -1) {
+		if d, ok := P.SpecFuns[id]; ok && !seen[id] {
+			seen[id] = true
+			if d.Abstract {
+				out = append(out, id)
+			} else {
+				// a macro: look inside
+				for _, id2 := range identRe.FindAllString(d.BodyTxt, -1) {
+					if d2, ok := P.SpecFuns[id2]; ok && d2.Abstract && !seen[id2] {
+						seen[id2] = true
+						out = append(out, id2)
+					}
+				}
+			}
+		}
+	}
+	return out
 }
